@@ -5,26 +5,20 @@
    the library, the exact bytes handed to it, and the mapping of the library's outcome to the
    return value.  The libraries (cryptography, nacl) and UTF-8 decoding are oracles.
    Definitions only; proofs are in Proofs/C35_proofs.v. *)
-From PV Require Import Bytes C39.
+From PV Require Import Bytes C39 C35_gen.
 Open Scope Z_scope.
 
-(* ---- names --------------------------------------------------------------------------------- *)
-Definition s_ssh_rsa : list Z := [115;115;104;45;114;115;97].                       (* "ssh-rsa" *)
-Definition s_rsa_256 : list Z := [114;115;97;45;115;104;97;50;45;50;53;54].         (* "rsa-sha2-256" *)
-Definition s_rsa_512 : list Z := [114;115;97;45;115;104;97;50;45;53;49;50].         (* "rsa-sha2-512" *)
-Definition s_cert : list Z :=                                          (* "-cert-v01@openssh.com" *)
-  [45;99;101;114;116;45;118;48;49;64;111;112;101;110;115;115;104;46;99;111;109].
-Definition s_ed25519 : list Z := [115;115;104;45;101;100;50;53;53;49;57].           (* "ssh-ed25519" *)
-Definition s_ecdsa_pfx : list Z := [101;99;100;115;97;45;115;104;97;50;45].         (* "ecdsa-sha2-" *)
-Definition s_nistp256 : list Z := [110;105;115;116;112;50;53;54].
-Definition s_nistp384 : list Z := [110;105;115;116;112;51;56;52].
-Definition s_nistp521 : list Z := [110;105;115;116;112;53;50;49].
+(* ---- names: regenerated from the source by gen/c35.py (Gen/C35_gen.v) on every run ------------------------ *)
+Definition s_ssh_rsa : list Z := gen_rsa_name.                 (* RSAKey.name *)
+Definition s_cert : list Z := gen_cert_suffix.                 (* "-cert-v01@openssh.com" *)
+Definition s_ed25519 : list Z := gen_ed_name.                  (* Ed25519Key.name *)
+Definition s_ecdsa_pfx : list Z := gen_ecdsa_prefix.           (* "ecdsa-sha2-" *)
+Definition s_nistp256 : list Z := gen_curve_name_0.
+Definition s_nistp384 : list Z := gen_curve_name_1.
+Definition s_nistp521 : list Z := gen_curve_name_2.
 
 (* RSAKey.HASHES: name -> hash (1 = SHA1, 256, 512), in source order *)
-Definition rsa_hashes : list (list Z * Z) :=
-  [ (s_ssh_rsa, 1); (s_ssh_rsa ++ s_cert, 1);
-    (s_rsa_256, 256); (s_rsa_256 ++ s_cert, 256);
-    (s_rsa_512, 512); (s_rsa_512 ++ s_cert, 512) ].
+Definition rsa_hashes : list (list Z * Z) := gen_rsa_hashes.
 
 Fixpoint lookup (k : list Z) (t : list (list Z * Z)) : option Z :=
   match t with
